@@ -2,6 +2,7 @@
 From Coq Require Import Ascii String List Bool Arith ZArith NArith.
 Import ListNotations.
 From AM Require Import Lib.Bytes Lib.Regex Model.SshdProc Proofs.SshdGeneral.
+From AM Require Import Gen.SshdDispatch Gen.SshdHandlers Model.SshdSketch Proofs.SshdHandlersTie.
 Open Scope string_scope.
 Open Scope list_scope.
 
@@ -38,3 +39,20 @@ Example C11_examples :
        "Accepted publickeyX Accepted publickey for a from b port 1 ssh2: RSA SHA256:x ID k (serial 1) CA RSA SHA256:y"]
   = [0; 0; 0; 0].
 Proof. vm_compute. reflexivity. Qed.
+
+(* ---------- the handlers of the model are the handlers of the source ----------
+   Gen/SshdHandlers.v is REGENERATED on every run by symbolic evaluation of each handler's Go body
+   (which capture group / constant / processor field feeds which event field, outcome, metric calls,
+   whether and with which credential the login is handed on).  For the 18 handlers that have a
+   sketch, the hand-written handler of Model/SshdProc.v IS the interpretation of that sketch; the
+   two without one (public key: three branches; invalid certificate: no regex) are tied by the
+   correspondence check only. *)
+Theorem C11_handlers_from_source : forall h hs, handler_sketch h = Some hs ->
+  forall c tok line wok ready, run_sketch hs c tok line wok ready = Some (run_handler h c tok line wok ready).
+Proof. exact run_sketch_is_run_handler. Qed.
+Print Assumptions C11_handlers_from_source.
+
+Theorem C11_handlers_without_sketch : forall h, handler_sketch h = None ->
+  h = h_processAcceptPublicKeyEntry \/ h = h_processCertificateInvalidEntry.
+Proof. exact sketch_coverage. Qed.
+Print Assumptions C11_handlers_without_sketch.
